@@ -36,6 +36,8 @@ var verifEngineC20 = &verifsim.Engine{
 	},
 }
 
+const verifBlankLineClass = "stream-decoder-accepts-empty-line-before-signature:result-does-not-reencode"
+
 type verifC20 struct {
 	c     *verifsim.Ctx
 	key   *verifKey
@@ -310,6 +312,11 @@ func verifDiff(a, d asserts.Assertion) string {
 // something that decodes to itself.
 func (w *verifC20) stable(x asserts.Assertion, from string) {
 	y, err := asserts.Decode(asserts.Encode(x))
+	if _, xs := x.Signature(); err != nil && len(xs) > 0 && xs[0] == '\n' {
+		w.c.Count("probe:newline-led-signature-handed-out")
+		w.violate(verifBlankLineClass, "the stream decoder accepted an assertion (%s) whose signature block starts with an empty line; asserts.Encode of it is rejected by asserts.Decode (%v), so the filesystem backstore cannot read back what Add stores", verifIdentity(x), err)
+		return
+	}
 	if err != nil {
 		w.violate("accepted-input-does-not-reencode", "an assertion accepted from %s re-encodes to something Decode rejects: %v; encoding %q", from, err, verifShortBytes(asserts.Encode(x), 700))
 		return
@@ -473,7 +480,7 @@ func verifRunC20(c *verifsim.Ctx) {
 		c.Logf("body limit %d for type %s", lim, sent[k].Type().Name)
 		w.fault("decoder-type-body-limit")
 	case "arbitrary":
-		data = w.genArbitrary(stream)
+		data = w.genArbitrary(stream, sigStarts)
 		w.fault("arbitrary-input")
 	case "eof-with-data":
 		rd.eofWith = true
@@ -560,15 +567,22 @@ func verifRunC20(c *verifsim.Ctx) {
 			intactPrefix(n)
 			break
 		}
+		// 100 or more empty reads in a row: the decoder may give up
+		// (io.ErrNoProgress) or, if the reader recovers, carry on; it may
+		// not hang (reader call bound above) nor lose data silently
 		fallthrough
 	case "io-error":
 		if !intactPrefix(len(got)) {
 			return
 		}
-		if derr == io.EOF {
+		if derr == io.EOF && len(got) < n {
 			w.violate("io-error-reported-as-end-of-stream", "%s at %d of %d bytes: the decoder returned %d of %d assertions and then a clean io.EOF", scenario, verifMax(rd.failAt, rd.stallAt), len(stream), len(got), n)
 		}
-		c.Count("probe:io-error-surfaced")
+		if derr != io.EOF {
+			c.Count("probe:io-error-surfaced")
+		} else {
+			c.Count("probe:reader-recovered-after-long-stall")
+		}
 	case "truncate":
 		if len(got) > 0 && !intactPrefix(len(got)-1) {
 			return
@@ -676,9 +690,18 @@ func verifStreamErr(err error) string {
 
 // genArbitrary produces input that was never an encoding of anything:
 // random bytes, header-looking text, or a heavily edited valid stream.
-func (w *verifC20) genArbitrary(stream []byte) []byte {
+func (w *verifC20) genArbitrary(stream []byte, sigStarts []int) []byte {
 	c := w.c
-	switch c.Draw("arbitrary", 5) {
+	switch c.Draw("arbitrary", 6) {
+	case 5:
+		// white space that does not belong: an extra new line or blank
+		// before a signature block or before the first header
+		p := sigStarts[c.Draw("ws-which", len(sigStarts))]
+		if c.Chance("ws-at-start", 1, 4) {
+			p = 0
+		}
+		ws := []string{"\n", " ", "\n\n", "\r\n"}[c.Draw("ws", 4)]
+		return append(append(append([]byte(nil), stream[:p]...), ws...), stream[p:]...)
 	case 0:
 		b := make([]byte, c.Draw("rand-len", 300))
 		for i := range b {
